@@ -1,7 +1,7 @@
 (* C14 - an executable instance of the canonicaliser model (Iso/Canon.v) and the
    observation/specification of the suite "canon" that ties it to
    rdflib.compare._TripleCanonicalizer.  The instance replaces SHA-256 by a
-   FNV-style mixing hash on 63-bit integers (like SHA-256 it is only
+   FNV-style mixing hash modulo 2^63 (like SHA-256 it is only
    assumed, not proved, to be injective on the multisets that occur); n3()/"%x"/
    str() by injective renderings.  The ORDER of hash strings therefore differs
    from rdflib's, so intermediate list orders differ; what is compared is
@@ -9,12 +9,13 @@
    Definitions only. *)
 From Coq Require Import ZArith Uint63.
 From RV Require Import Iso.Model Iso.Canon.
+From RV Require Export Iso.CanonInst.
 
 (* an FNV-style hash with xor-shift mixing on primitive 63-bit integers
-   (vm_compute evaluates them natively; with N arithmetic one case took seconds).
-   It must not be linear: a plain polynomial hash makes the SUM over the triples
-   "A p B", "B p C" equal to the sum over "B p B", "A p C" - exactly the kind of
-   collision assumption MA3 excludes for SHA-256. *)
+   (vm_compute evaluates them natively; the same function in N arithmetic is
+   hfN in Iso/CanonInst.v, 100x slower).  It must not be linear: a plain polynomial
+   hash makes the SUM over the triples "A p B", "B p C" equal to the sum over
+   "B p B", "A p C" - exactly the kind of collision assumption MA3 excludes. *)
 Definition hf_step (acc : int) (c : N) : int :=
   let x := ((acc lxor (Uint63.of_Z (Z.of_N c) + 1)) * 1099511628211)%uint63 in
   let y := (x lxor (x >> 29))%uint63 in
@@ -24,27 +25,6 @@ Definition hf (s : str) : N :=
   let z := ((h lxor (h >> 31)) * 7046029254386353131)%uint63 in
   Z.to_N (Uint63.to_Z (z lxor (z >> 27))%uint63).
 
-Fixpoint digits (base : N) (fuel : nat) (n : N) (acc : str) : str :=
-  match fuel with
-  | O => acc
-  | S k => let d := (n mod base)%N in
-           let c := (if N.ltb d 10 then 48 + d else 87 + d)%N in
-           if N.eqb (n / base) 0 then c :: acc else digits base k (n / base)%N (c :: acc)
-  end.
-Definition hexs_i (n : N) : str := digits 16 48 n [].
-Definition decN (n : N) : str := digits 10 48 n [].
-Definition decs_i (n : nat) : str := decN (N.of_nat n).
-Definition n3_i (t : term) : str :=
-  match t with
-  | Const n => [60%N] ++ decN n ++ [62%N]           (* <n> *)
-  | Blank n => [95%N; 58%N; 110%N] ++ decN n        (* _:n<label> *)
-  end.
-Definition ct_i (t : cterm) : str :=
-  match t with CC n => n3_i (Const n) | CB h => [95%N; 58%N] ++ h end.
-Definition tstr_i (t : ctriple) : str :=
-  let '(a, b, c) := t in ct_i a ++ [32%N] ++ ct_i b ++ [32%N] ++ ct_i c.
-
-Definition FUEL : nat := 48.
 
 Definition refine0 (g : graph) : option (list color) :=
   let c0 := m_initial_color hf n3_i hexs_i decs_i g in m_refine hf n3_i hexs_i decs_i g FUEL c0 c0.
@@ -58,7 +38,8 @@ Record cobs := {
   q_part2 : list (list term);
   q_iso : bool;                 (* compare.isomorphic(g1, g2) *)
   q_isoeq : bool;               (* to_isomorphic(g1) == to_isomorphic(g2) *)
-  q_fail : bool                 (* exception / timeout / fuel *)
+  q_fail : bool;                (* exception / timeout / fuel *)
+  q_undet : bool                (* model only: verdicts not determined (finding FC14a, see Iso/Model.v kf) *)
 }.
 
 Definition canon_model (c : case) : cobs :=
@@ -66,8 +47,8 @@ Definition canon_model (c : case) : cobs :=
   | Some p1, Some p2, Some b =>
       (* m_iso_eq = length test, then m_isomorphic: evaluated once *)
       let e := if negb (Nat.eqb (length (c_g1 c)) (length (c_g2 c))) then false else b in
-      {| q_part1 := map nodes p1; q_part2 := map nodes p2; q_iso := b; q_isoeq := e; q_fail := false |}
-  | _, _, _ => {| q_part1 := []; q_part2 := []; q_iso := false; q_isoeq := false; q_fail := true |}
+      {| q_part1 := map nodes p1; q_part2 := map nodes p2; q_iso := b; q_isoeq := e; q_fail := false; q_undet := negb (N.eqb (kf c) 0) |}
+  | _, _, _ => {| q_part1 := []; q_part2 := []; q_iso := false; q_isoeq := false; q_fail := true; q_undet := false |}
   end.
 
 Definition class_eqb (a b : list term) : bool := seteqb term_eqb a b.
@@ -76,7 +57,7 @@ Definition part_eqb (p q : list (list term)) : bool :=
 
 Definition canon_obs_eqb (a b : cobs) : bool :=
   part_eqb (q_part1 a) (q_part1 b) && part_eqb (q_part2 a) (q_part2 b)
-  && Bool.eqb (q_iso a) (q_iso b) && Bool.eqb (q_isoeq a) (q_isoeq b)
+  && (q_undet a || q_undet b || (Bool.eqb (q_iso a) (q_iso b) && Bool.eqb (q_isoeq a) (q_isoeq b)))
   && negb (q_fail a) && negb (q_fail b).
 
 (* the partition is a partition of the blank nodes of the graph plus singleton
